@@ -1567,6 +1567,18 @@ impl<'a> AstResolver<'a> {
                     self.use_type(state, u, &mut ty.uses, &mut ty.imports, packages, true)?
                 }
                 ast::WorldItem::Type(decl) => {
+                    // Type names are checked against other types when they are
+                    // registered; an import that is not a type is not
+                    let id = decl.id();
+                    if matches!(ty.imports.get(id.string), Some(kind) if !matches!(kind, ItemKind::Type(_)))
+                    {
+                        return Err(Error::DuplicateWorldItem {
+                            kind: ExternKind::Import,
+                            name: id.string.to_owned(),
+                            world: world.to_owned(),
+                            span: id.span,
+                        });
+                    }
                     self.item_type_decl(state, decl, &mut ty.imports)?;
                 }
                 ast::WorldItem::Import(i) => {
@@ -1878,6 +1890,17 @@ impl<'a> AstResolver<'a> {
                     self.use_type(state, u, &mut ty.uses, &mut ty.exports, packages, false)?
                 }
                 ast::InterfaceItem::Type(decl) => {
+                    // Type names are checked against other types when they are
+                    // registered; a function export of the same name is not
+                    let id = decl.id();
+                    if matches!(ty.exports.get(id.string), Some(kind) if !matches!(kind, ItemKind::Type(_)))
+                    {
+                        return Err(Error::DuplicateInterfaceExport {
+                            name: id.string.to_owned(),
+                            interface_name: name.map(ToOwned::to_owned),
+                            span: id.span,
+                        });
+                    }
                     self.item_type_decl(state, decl, &mut ty.exports)?;
                 }
                 ast::InterfaceItem::Export(e) => {
